@@ -307,12 +307,14 @@ type collector struct {
 	Distinct []uint64         `json:"distinct"`
 	Vios     []*vioRec        `json:"vios"`
 	Aborted  []string         `json:"aborted"`
+	Samples  []string         `json:"samples"`
 	// max over the cache histories of nodes-(capacity+1): negative or 0 while the bound holds
 	MaxOver    int64 `json:"max_over"`
 	MaxOverSet bool  `json:"max_over_set"`
 
-	seen  map[uint64]struct{}
-	bysig map[string]*vioRec
+	seen       map[uint64]struct{}
+	bysig      map[string]*vioRec
+	mapSamples int
 }
 
 func newCollector() *collector {
@@ -424,6 +426,10 @@ func runNode(c *collector, keys, slots int, ops []op, g gen, count bool) bool {
 			}
 		case count:
 			c.Evals++
+			if len(ops) >= 6 && popcount(g.open) >= 2 && c.mapSamples < 1 {
+				c.mapSamples++
+				c.Samples = append(c.Samples, "map history (held): "+seqText(ops)+closingText(k))
+			}
 		}
 	}
 	if count {
@@ -701,6 +707,7 @@ type lruOutcome struct {
 	maxOver  int // max nodes - (capacity+1)
 	maxExtra int // max nodes - (length+1)
 	evicted  bool
+	calls    string // the first executed calls, written out
 }
 
 // runLRU executes the history. visit receives (capacity, kind, fill class, nodes-length-1) classes.
@@ -736,7 +743,7 @@ func runLRU(k lruCase, visit func(uint64)) lruOutcome {
 	for _, d := range k.Drop {
 		drop[d] = true
 	}
-	prevExtra := 0
+	prevExtra, ncalls := 0, 0
 	for i, o := range genLRU(k) {
 		var kind string
 		switch o.kind {
@@ -779,6 +786,17 @@ func runLRU(k lruCase, visit func(uint64)) lruOutcome {
 			pan = guard(func() { c.Clear() })
 		}
 		out.kinds[kind]++
+		if ncalls < 24 {
+			ncalls++
+			if o.kind == 'C' {
+				out.calls += "Clear; "
+			} else {
+				out.calls += fmt.Sprintf("%s(%d); ", map[byte]string{'G': "GetOrCreate", 'R': "Remove"}[o.kind], o.key)
+			}
+		} else if ncalls == 24 {
+			ncalls++
+			out.calls += "…"
+		}
 		if pan != nil {
 			// the cache may hold its lock now: no further call, not even the hook
 			out.aborted = fmt.Sprintf("call %d %s(%d) [%s]: panic: %v", i, string(o.kind), o.key, kind, pan)
@@ -892,6 +910,9 @@ func lruPass(c *collector, seed int64, perHistory, shard, of int) {
 			for kind, n := range out.growth {
 				c.Counters["lru_excess_node_increases_after_"+kind] += int64(n)
 			}
+			if _, ok := c.Maxima["lru_max_nodes_minus_resident_minus_sentinel"]; !ok {
+				c.Maxima["lru_max_nodes_minus_resident_minus_sentinel"] = 0
+			}
 			c.max("lru_max_nodes", int64(out.maxNodes))
 			c.max("lru_max_nodes_minus_resident_minus_sentinel", int64(out.maxExtra))
 			if out.maxOver > math.MinInt32 && (!c.MaxOverSet || int64(out.maxOver) > c.MaxOver) {
@@ -906,9 +927,13 @@ func lruPass(c *collector, seed int64, perHistory, shard, of int) {
 				if out.v.sig == "retained" {
 					sig = "lru/retained-after-" + culprit(k, out)
 				}
-				c.violation(sig, out.v.what, k, out.stop)
+				k.Calls = out.calls
+				c.violation(sig, out.v.what+" — first calls: "+out.calls, k, out.stop)
 			default:
 				c.Evals++
+				if capy == 3+shard && ci == shard%len(lruClasses) {
+					c.Samples = append(c.Samples, fmt.Sprintf("cache history (held): capacity %d, %s, %d calls %v, max nodes %d; first calls: %s", capy, cl.name, k.N, out.kinds, out.maxNodes, out.calls))
+				}
 			}
 		}
 	}
@@ -969,9 +994,9 @@ type plan struct {
 
 func planFor(thorough bool) plan {
 	if thorough {
-		return plan{mapDepth: 9, mapRandom: 40000, mapRandomLen: 1000, lruPerHistory: 25000, timingCycles: 60000}
+		return plan{mapDepth: 9, mapRandom: 40000, mapRandomLen: 1000, lruPerHistory: 50000, timingCycles: 60000}
 	}
-	return plan{mapDepth: 7, mapRandom: 4000, mapRandomLen: 1000, lruPerHistory: 2500, timingCycles: 20000}
+	return plan{mapDepth: 8, mapRandom: 4000, mapRandomLen: 1000, lruPerHistory: 5000, timingCycles: 20000}
 }
 
 func runShard(pl plan, seed int64, shard, of int) *collector {
@@ -1072,7 +1097,7 @@ func TestCheck(t *testing.T) {
 		}(i)
 	}
 	wg.Wait()
-	var aborted []string
+	var aborted, samples []string
 	for i, c := range results {
 		if c == nil {
 			run.Inconclusive(fmt.Sprintf("shard %d/%d did not deliver a result: %v", i, of, errs[i]))
@@ -1097,6 +1122,9 @@ func TestCheck(t *testing.T) {
 			}
 		}
 		aborted = append(aborted, c.Aborted...)
+		if i < 3 {
+			samples = append(samples, c.Samples...)
+		}
 	}
 	if maxOverSet {
 		run.Note("lru_max_of_nodes_minus_capacity_plus_1", maxOver)
@@ -1104,8 +1132,10 @@ func TestCheck(t *testing.T) {
 	if len(aborted) > 0 {
 		run.Inconclusive(fmt.Sprintf("%d histories were ended by a panic (not judged here), e.g. %s", len(aborted), aborted[0]))
 	}
-	run.Sample("map: Add(a); it0=Iterator(); Remove(a); it0.HasNext(); then close every open iterator -> nodes == Len()+1")
-	run.Sample("lru: capacity 3, clear-cycle: GetOrCreate(k); Clear; ... hook after every call")
+	sort.Strings(samples)
+	for _, s := range samples {
+		run.Sample(s)
+	}
 	timing(run, pl.timingCycles)
 }
 
